@@ -620,6 +620,10 @@ def shared_dependencies(m, run):
     from . import skel_drivers as _sd
     from .pure import Purity
     _sd.evx(m, run)
+    _sd.bf3(m, run)        # ... with basis values that are the Cox-de Boor polynomials on every span, however narrow (BF3, shared with C03)
+    _sd.sc2(m, run)        # ... on the control points the object was given (SC2: nothing is rounded on the way in, whatever the precision)
+    from . import rules_state as _rs0
+    _rs0.iv4_deepcopy(m, run)      # without inplace the operations work on a deep copy: it shares nothing with its source (DC9)
     P0 = Purity(m)
     for fi_ in [f for f in m.functions_in('helpers') if f.kind == 'function']:
         mg = [mu for mu in P0.summary(fi_).mutations if mu.root.startswith('global:')]
